@@ -49,6 +49,9 @@ class HistoryMachine(RuleBasedStateMachine):
     def flags(self):
         return True, []
 
+    def before(self, step):
+        pass
+
     def extra_init(self):
         pass
 
@@ -68,10 +71,11 @@ class HistoryMachine(RuleBasedStateMachine):
         return self.U[ki % len(self.U)]
 
     def do(self, step):
-        if self.DRAWS is not None and self.world.kind in ("log16", "log8") and "draws" not in step:
+        if self.DRAWS is not None and self.world.kind in ("log16", "log8") and "draws" not in step and step["op"] not in ("merge", "save_load", "query"):
             raise AssertionError("log step without draws")
         self.trace["steps"].append(step)
         try:
+            self.before(step)
             touched = self.world.apply(step)
             self.check(touched, step)
         except Violation:
@@ -138,6 +142,8 @@ def replay_trace(case, checker_factory):
     try:
         check = checker_factory(w, case)
         for step in case["steps"]:
+            if hasattr(check, "before"):
+                check.before(step)
             touched = w.apply(step)
             check(touched, step)
     finally:
@@ -157,6 +163,10 @@ def make_machine(name, checker_cls, rec, holder, **attrs):
     def flags(self):
         return self.checker.flags()
 
+    def before(self, step):
+        if hasattr(self.checker, "before"):
+            self.checker.before(step)
+
     d = dict(attrs)
-    d.update(extra_init=extra_init, check=check, flags=flags, REC=rec, HOLDER=holder)
+    d.update(extra_init=extra_init, check=check, flags=flags, before=before, REC=rec, HOLDER=holder)
     return type(name, (HistoryMachine,), d)
